@@ -286,6 +286,12 @@ func shallowKey(rv reflect.Value) interface{} {
 	switch t.Kind() {
 	case reflect.Map:
 		return J{"mp": rv.IsNil()}
+	case reflect.Interface:
+		// what an interface{} field holds is rendered the same way: a map held in it is shared, not owned
+		if rv.IsNil() {
+			return J{"if": nil}
+		}
+		return J{"if": shallowKey(rv.Elem())}
 	case reflect.Ptr:
 		if rv.IsNil() {
 			return J{"p": nil}
@@ -375,8 +381,12 @@ func kUnpack(c J) interface{} {
 	if err := cfg.Unpack(arg, buildOpts(c["uopts"])...); err != nil {
 		ce := canonErr(err).(J)["err"].(J)
 		after := mustJSON(shallowKey(target.Elem()))
-		return J{"err": J{"reason": ce["reason"], "typed": ce["typed"], "class": ce["class"], "path": ce["path"], "text": ce["text"]},
+		res := J{"err": J{"reason": ce["reason"], "typed": ce["typed"], "class": ce["class"], "path": ce["path"], "text": ce["text"]},
 			"unchanged": t.Kind() != reflect.Struct || before == after} // C13 speaks about struct targets
+		if res["unchanged"] == false {
+			res["heldBefore"], res["heldAfter"] = before, after
+		}
+		return res
 	}
 	return J{"ok": canonGoVal(target.Elem())}
 }
